@@ -13,6 +13,7 @@ from mici.errors import (
     Error,
     HamiltonianDivergenceError,
     IntegratorError,
+    LinAlgError,
     NonReversibleStepError,
 )
 from mici.utils import LogRepFloat
@@ -231,6 +232,18 @@ class IntegrationTransition(Transition):
             "step_size": (np.float64, np.nan),
         }
 
+    def _h_trial_state(self, state: ChainState) -> ScalarLike:
+        """Evaluate Hamiltonian at a trial state, returning NaN if this fails.
+
+        Errors in linear algebra operations while evaluating the Hamiltonian, for
+        example due to non-finite values in arrays, are treated equivalently to a NaN
+        valued Hamiltonian so that the trial state is never accepted.
+        """
+        try:
+            return self.system.h(state)
+        except (ValueError, LinAlgError):
+            return np.nan
+
     @abstractmethod
     def sample(
         self,
@@ -298,7 +311,7 @@ class MetropolisIntegrationTransition(IntegrationTransition):
             # Reverse integration direction of proposal to form an involution
             state_p.dir *= -1
         if state_p is not state:
-            h_final = self.system.h(state_p)
+            h_final = self._h_trial_state(state_p)
             h_diff = h_init - h_final
             # Explicitly check if h_diff is NaN as min(0, NaN) = 0
             accept_prob = 0.0 if np.isnan(h_diff) else np.exp(min(0, h_diff))
@@ -655,7 +668,7 @@ class DynamicIntegrationTransition(IntegrationTransition):
             try:
                 # integrate forward/backward one step depending on state.dir
                 state = self.integrator.step(state)
-                h = self.system.h(state)
+                h = self._h_trial_state(state)
                 h = np.inf if np.isnan(h) else h
                 tree = self._new_leave(state, h, aux_vars)
                 proposal = state
